@@ -43,7 +43,7 @@ def required_cells(tier):
              'where:class', 'where:module', 'where:deco', 'start-line-checks', 'part-offset-checks',
              'blank-lines-before-first-block', 'ignored-block-before-doctest',
              'opening-line-differs-from-evaluated-text', 'open:on-the-def-line',
-             'traceback-entries-of-inner-frames'])
+             'traceback-entries-of-inner-frames', 'file-encoding:latin-1'])
 
 
 def gen_doctest(rng, uid, fail_kind):
@@ -276,7 +276,13 @@ def check_module(ctx, idx, seed):
     if eol != '\n':
         src = src.replace('\n', eol)
         feats.add('file-line-ends:crlf')
-    with open(path, 'w', newline='', encoding='utf8') as f:
+    enc = 'utf8'
+    if rng.random() < 0.12 and all(ord(c) < 256 for c in src):
+        # a source file in another encoding, declared by a cookie (finding F33)
+        src = '# -*- coding: latin-1 -*-' + eol + src + '_caf = "caf\xe9"' + eol
+        enc = 'latin-1'
+        feats.add('file-encoding:latin-1')
+    with open(path, 'w', newline='', encoding=enc) as f:
         f.write(src)
     flines = re.split('\r\n|\r|\n', src)      # the lines as the compiler counts them
     case = {'index': idx, 'case_seed': seed}
